@@ -798,6 +798,18 @@ func (fr *FnRun) initCallCounters(st *State) {
 			scan(a.Src)
 		}
 	}
+	// loop invariants may relate a counter to the loop variables (`calls("f") == i`): the counter is
+	// made unknown at the loop head BEFORE the invariants are assumed
+	for _, ls := range fr.ctr.Loops {
+		for _, inv := range ls.Invariants {
+			scan(inv.Src)
+		}
+	}
+	for _, ls := range fr.ctr.VLoops {
+		for _, inv := range ls.Invariants {
+			scan(inv.Src)
+		}
+	}
 	if len(fr.callPats) == 0 {
 		return
 	}
